@@ -106,6 +106,11 @@ def gen_trace(recipe):
   X, y = gen.dataset(rng, d=d, n_classes=ncls, per_class=(int(rng.integers(4, 6)) if ncls == 2 else 4) if True else 4, bits=4, sep=1.5)
   X = X / 2.0
   n = len(X)
+  shape_kind = str(rng.choice(['plain', 'plain', 'outlier', 'large_scale']))
+  if shape_kind == 'outlier':
+    X[int(rng.integers(n))] += 40.0          # one sample far from all the others
+  elif shape_kind == 'large_scale':
+    X = X * 64.0                              # unscaled features: squared distances in the thousands
   k = None if rng.random() < 0.4 else int(rng.integers(1, d + 1))
   init = str(rng.choice(['identity', 'pca', 'random', 'auto', 'array'] + (['lda'] if algo != 'MLKR' else [])))
   kk = k or d
@@ -160,11 +165,11 @@ def gen_trace(recipe):
                        'P': dym(P), 'a': dym(a), 'e': dym(e), 'Z': dyv(Z)})
       if len(pr.evals) <= 5:
         events.append({'ev': 'Result', 'L': dym(est.components_), 'L_init': dym(L0), 'zero_iterations': bool(pr.nit == 0)})
-  return {'est': algo, 'init': init, 'mode': mode, 'events': events}
+  return {'est': algo, 'init': init, 'mode': mode, 'shape_kind': shape_kind, 'events': events}
 
 
 def signature_of(recipe, tr, clause, pos):
-  return {'estimator': recipe['algo'], 'init': tr.get('init'), 'mode': tr.get('mode')}
+  return {'estimator': recipe['algo'], 'init': tr.get('init'), 'mode': tr.get('mode'), 'data': tr.get('shape_kind')}
 
 
 def run(ctx):
